@@ -2430,7 +2430,9 @@ def normalize_module(tree: ast.Module, extern=None) -> ast.Module:
             if isinstance(n, ast.FunctionDef):
                 # (local functions handed to a worker that is now in place)
                 n2.inline_local_defs(n)
-                n2.propagate_local_constants(n)
+                for _ in range(4):
+                    if not n2.propagate_local_constants(n):
+                        break
                 n2.local_partials(n)
                 n2.inline_single_use_generators(n)
                 n2.next_loops(n)
